@@ -777,7 +777,7 @@ def ob_rebuild(prog, max_items=2):
                 return ('skip', None)           # more than max_items items: outside this obligation's bound
             out = chain(e.call_fn(B('new'), [vc, afp], {}), [(ab, '&[u8]')] + [(x, "v2::model::TypeLengthValue<'_>") for x in items])
         return ('built', way, out)
-    res = explore(ex, run, base_axioms=ctx.axioms)
+    res = explore(ex, run, base_axioms=ctx.axioms, max_paths=6000)
     recs = []
     n = 0
     for i, (sc, items, out, notes) in enumerate(res):
